@@ -2,6 +2,13 @@ From Coq Require Import NArith List Bool Arith Lia Permutation.
 Import ListNotations.
 Require Import SR.Base.Res SR.Spec.Table SR.Model.HeaderRow.
 Require SR.Model.NameCleaner SR.Proofs.NameCleanerP.
+(* The definitions of this development that occur in theorem statements (Props/) live in Spec/HeaderRowKeys.v (audit item G1).
+   The abbreviations keep the qualified names HeaderRowP.name of other files resolving; they are parsing-only aliases. *)
+Require Export SR.Spec.HeaderRowKeys.
+Notation k_title := SR.Spec.HeaderRowKeys.k_title (only parsing).
+Notation k_anchor := SR.Spec.HeaderRowKeys.k_anchor (only parsing).
+Notation k_type := SR.Spec.HeaderRowKeys.k_type (only parsing).
+Notation k_string := SR.Spec.HeaderRowKeys.k_string (only parsing).
 
 (* ---------------------------------------------------------------- keys *)
 Lemma key_eqb_eq a : forall b, key_eqb a b = true <-> a = b.
@@ -33,10 +40,6 @@ Qed.
    (harness/t1_workbook.py).  The lemmas of this section say which rules the proofs below rely on; each is
    closed by computation on the regenerated values, so an edit of the rule in the source stops it (and with
    it Props/C09.vo, Props/C03.vo, Props/C10.vo) from compiling. *)
-Definition k_title : key := [116; 105; 116; 108; 101]%N.
-Definition k_anchor : key := [36; 97; 110; 99; 104; 111; 114]%N.
-Definition k_type : key := [116; 121; 112; 101]%N.
-Definition k_string : key := [115; 116; 114; 105; 110; 103]%N.
 Definition k_conversion : key := [99; 111; 110; 118; 101; 114; 115; 105; 111; 110]%N.
 
 (* HeadingRowSchemaLoader.header: the property of a heading is keyed by str(heading) and gets
